@@ -31,6 +31,8 @@ Inductive op :=
 (* partial_tucker on a list of modes; tucker with fixed factors (init = a Tucker tensor with factor m of shape I_m x rank_m) *)
 | DPartialTucker (shape rank modes : list nat)
 | DTuckerFixed (shape rank fixed : list nat)
+| DPartialTuckerRandom0 (shape rank modes : list nat)        (* init = 'random', n_iter_max = 0: the drawn core and factors *)
+| DPartialTuckerSpec (shape : list nat) (spec : option rspec) (modes : list nat)     (* rank = None / an int / a list *)
 (* canonical form evaluated exactly on the implementation's outputs (floats as exact rationals) *)
 | DDesc (d : desc)            (* a loop skeleton read off the source: does it satisfy the hypothesis of C08_gen_run_normalised? *)
 | QOrth (k : nat) (M : list Q) (tol : Q)
@@ -88,6 +90,8 @@ Definition run (o : op) : res (list (list nat)) :=
           [if ends_normalised t then 1 else 0]; [if any_normalise t then 1 else 0]]
   | DPartialTucker shape rank modes => partial_tucker shape rank modes
   | DTuckerFixed shape rank fixed => tucker_fixed shape rank fixed
+  | DPartialTuckerRandom0 shape rank modes => partial_tucker_random0 shape rank modes
+  | DPartialTuckerSpec shape spec modes => partial_tucker_spec shape spec modes
   | DDesc d => Ok [[if desc_ok d then 1 else 0]]
   | QOrth k M tol => Ok [[if orth_ok k M tol then 1 else 0]]
   | QTucker shape ranks X core fs t1 t2 => Ok [[if tucker_ok shape ranks X core fs t1 t2 then 1 else 0]]
